@@ -275,6 +275,13 @@ class InlineTranslator:
             tuple_vars.update(collect_ast(term, "Variable"))
         if not (set(collect_ast(agg, "Variable")) & global_vars_inside_body(rbody)) <= tuple_vars:
             return [stm]
+        # the local variables of the elements become global: they must not meet a variable that is local elsewhere
+        local_vars = set(collect_ast(agg, "Variable")) - global_vars_inside_body(rbody) - {hv, Variable(LOC, "_")}
+        other_vars = set(tuple_vars)
+        for blit in rbody:
+            other_vars.update(collect_ast(blit, "Variable"))
+        if local_vars & other_vars:
+            return [stm]
         new_minimizes = []
         max_arity = 0
         for tuple_ in self.minimize_tuples:
